@@ -367,7 +367,7 @@ def sequences(tier):
             out.extend(itertools.product(idx, repeat=k))
         else:
             # length 3: all triples over the tag-bearing and timestamp-less events
-            sub = [1, 2, 3, 4, 5, 9, 12]
+            sub = [1, 2, 4, 5, 12]
             out.extend(itertools.product(sub, repeat=3))
     # the same tree used for a second (third) run
     few = [1, 4, 6]
